@@ -292,7 +292,8 @@ def gen_linsolve(rng, tier):
         b[:, 2] = b[:, 0] - 2 * b[:, 1]
     if rng.random() < 0.3:
         b = b * 10.0 ** rng.uniform(-12, 12)
-    if rng.random() < 0.15 and np.all(np.abs(b) < 1e30) and np.all((np.abs(b) > 1e-30) | (b == 0)):
+    if form != "blkdep" and rng.random() < 0.15 and np.all(np.abs(b) < 1e30) and np.all((np.abs(b) > 1e-30) | (b == 0)):
+        # (not for the block with a dependent column: rounding makes it *nearly* dependent, the listed finding K4 of C06)
         # a single-precision right-hand side (loads read from a float32 file) with the usual double-precision matrix: the solution and
         # the sensitivities are double-precision quantities of these (exactly representable) values
         b = b.astype(np.complex64 if np.iscomplexobj(b) else np.float32)
